@@ -139,4 +139,25 @@ def keepTok (flag : Nat) : Tok → List Nat
     else []
   | _ => []
 
+/-! ### the call site of strip-all: ptt.myWrite → myWriteMsg (ptt/talk.go)
+
+`msg := cmsys.StripAnsi(prompt, cmsys.STRIP_ANSI_ALL)` — unconditionally (regenerated call-site fact
+`Gen.C18Str.myWriteStripsUnconditionally`) — then `copy(msgQueue.LastCallIn[:], msg)` into the zeroed 76-byte field. -/
+
+def LAST_CALL_IN : Nat := Gen.C18Str.lastCallInLen
+
+/-- what the receiver's message queue holds for a message text. -/
+def lastCallIn (prompt : List Nat) : M (List Nat) := do
+  let msg ← stripAnsi prompt STRIP_ANSI_ALL
+  pure (copyInto LAST_CALL_IN msg)
+
+/-- the broken rule (seed C18-r6-1), for the witness theorem: strip only when the text contains `ESC [`. -/
+def containsCsi : List Nat → Bool
+  | a :: b :: r => (a == ESC && b == 91) || containsCsi (b :: r)
+  | _ => false
+
+def lastCallInFastPath (prompt : List Nat) : M (List Nat) := do
+  let msg ← if containsCsi prompt then stripAnsi prompt STRIP_ANSI_ALL else pure prompt
+  pure (copyInto LAST_CALL_IN msg)
+
 end PttVerif.C18
